@@ -1,104 +1,135 @@
-import JunoModel.C15.ProofsScan
-/-! World-level simulation: db/memory (variant `cfg`) refines the contract on every step that is
-inside the contract boundary `stepOK cfg`. -/
+import JunoModel.C15.ProofsPeb
+/-! Generic simulation of an implementation `M` by the contract `specImpl`: what has to be shown
+locally (`Sim`), scans, and the world-level relation `R`. -/
 namespace Juno.C15
 
-/-! ### batches -/
+/-- Local obligations that make `M` simulate `specImpl`. `rb idx od b sb`: batch `b` of `M`
+represents contract batch `sb` (created with flag `idx`) while the store is `od`. -/
+structure Sim {B I : Type} (M : Impl B I) where
+  rb : Bool → Option KV → B → SBatch → Prop
+  ri : I → SIter → Prop
+  okOp : Op → Bool
+  needF5 : Bool
+  empty : ∀ i od, rb i od (M.bempty i) (specImpl.bempty i)
+  put : ∀ {i od b sb} (k v), rb i od b sb → rb i od (M.bput b k v) (specImpl.bput sb k v)
+  del : ∀ {i od b sb} (k), rb i od b sb → rb i od (M.bdel b k) (specImpl.bdel sb k)
+  delRange : ∀ {i d b sb} (s e), Sorted d → rb i (some d) b sb →
+    rb i (some d) (M.bdelRange d b s e) (specImpl.bdelRange d sb s e)
+  get : ∀ {d b sb} (k), rb true (some d) b sb → M.bget true d b k = specImpl.bget true d sb k
+  has : ∀ {d b sb} (k), rb true (some d) b sb → M.bhas true d b k = specImpl.bhas true d sb k
+  view : ∀ {d b sb}, rb true (some d) b sb → M.bview true d b = specImpl.bview true d sb
+  flush : ∀ {i d b sb}, rb i (some d) b sb → M.bflush d b = specImpl.bflush d sb
+  size : ∀ {i od b sb}, rb i od b sb → noRange sb = true → M.bsize b = sb.size
+  rebase : ∀ {i od b sb} (od'), rb i od b sb →
+    (needF5 = true → ∀ d', od' = some d' → batchAgrees d' sb = true) → rb i od' b sb
+  dget : ∀ d k, M.dget d k = specImpl.dget d k
+  dhas : ∀ d k, M.dhas d k = specImpl.dhas d k
+  sget : ∀ d k, M.sget d k = specImpl.sget d k
+  shas : ∀ d k, M.shas d k = specImpl.shas d k
+  mkIter : ∀ d p u, ri (M.imk d p u) (specImpl.imk d p u)
+  first : ∀ {mi si}, ri mi si → ri (M.ifirst mi).1 si.first ∧ (M.ifirst mi).2 = si.first.cur.isSome
+  next : ∀ {mi si}, ri mi si → ri (M.inext mi).1 si.next ∧ (M.inext mi).2 = si.next.cur.isSome
+  prev : ∀ {mi si}, ri mi si → ri (M.iprev mi).1 si.prev ∧ (M.iprev mi).2 = si.prev.cur.isSome
+  seek : ∀ {mi si} (t), ri mi si → ri (M.iseek mi t).1 (si.seek t) ∧ (M.iseek mi t).2 = (si.seek t).cur.isSome
+  cur : ∀ {mi si}, ri mi si → M.icur mi = si.cur
+  reent : ∀ s k k2 v2, okOp (.getw s k k2 v2) = true → M.reentrant = true
 
-/-- db/memory batch `mb` represents contract batch `sb` over store content `d` -/
-def RB (d : KV) (mb : MBatch) (sb : SBatch) : Prop :=
-  wmOK mb ∧ mb.flush d = applyLog d sb.log ∧
-  (noRange sb = true → (∀ d', mb.flush d' = applyLog d' sb.log) ∧ mb.size = sb.size)
+section
+variable {B I : Type} {M : Impl B I} (S : Sim M)
 
-theorem noRange_append (log : List LogOp) (sz sz' : Nat) (o : LogOp) :
-    noRange ⟨log ++ [o], sz⟩ = (noRange ⟨log, sz'⟩ && !o.isRange) := by
-  simp [noRange, List.all_append]
+/-! ### scans -/
 
-theorem RB_empty (d : KV) : RB d (memImpl cfg).bempty specImpl.bempty := by
-  refine ⟨wmOK_empty, rfl, fun _ => ⟨fun _ => rfl, rfl⟩⟩
+theorem scanLoop_sim : ∀ (fuel : Nat) (mi : I) (si : SIter), S.ri mi si →
+    scanLoop M fuel mi si.cur.isSome = scanLoop specImpl fuel si si.cur.isSome := by
+  intro fuel
+  induction fuel with
+  | zero => intro mi si _; rfl
+  | succ f ih =>
+    intro mi si h
+    cases hc : si.cur with
+    | none => simp [scanLoop]
+    | some kv =>
+      have hm : M.icur mi = some kv := by rw [S.cur h, hc]
+      have hs : specImpl.icur si = some kv := hc
+      have hn := S.next h
+      simp only [scanLoop, Option.isSome_some, if_true, hm, hs]
+      have e2 : specImpl.inext si = (si.next, si.next.cur.isSome) := rfl
+      rw [e2, hn.2]
+      congr 1
+      exact ih _ _ hn.1
 
-theorem RB_put {d : KV} {mb : MBatch} {sb : SBatch} (h : RB d mb sb) (k : Key) (v : Val) :
-    RB d (mb.put k v) (specImpl.bput sb k v) := by
-  obtain ⟨h1, h2, h3⟩ := h
-  refine ⟨wmOK_put h1 k v, ?_, ?_⟩
-  · show (mb.put k v).flush d = applyLog d (sb.log ++ [.put k v])
-    rw [flush_put, applyLog_append, h2]; rfl
-  · intro hn
-    have hn' : noRange sb = true := by
-      have := noRange_append sb.log (sb.size + k.length + v.length) sb.size (.put k v)
-      simp only [specImpl] at hn
-      rw [this] at hn
-      simpa [LogOp.isRange] using hn
-    obtain ⟨h4, h5⟩ := h3 hn'
-    refine ⟨fun d' => ?_, ?_⟩
-    · show (mb.put k v).flush d' = applyLog d' (sb.log ++ [.put k v])
-      rw [flush_put, applyLog_append, h4]; rfl
-    · show mb.size + k.length + v.length = sb.size + k.length + v.length
-      rw [h5]
+include S in
+theorem scan_sim (c : KV) (p : Key) (u : Bool) : scan M c p u = scan specImpl c p u := by
+  unfold scan
+  have hf := S.first (S.mkIter c p u)
+  have e2 : specImpl.ifirst (specImpl.imk c p u) =
+      ((specImpl.imk c p u).first, (specImpl.imk c p u).first.cur.isSome) := rfl
+  rw [e2]
+  show scanLoop M (c.length + 1) (M.ifirst (M.imk c p u)).1 (M.ifirst (M.imk c p u)).2 =
+    scanLoop specImpl (c.length + 1) (specImpl.imk c p u).first (specImpl.imk c p u).first.cur.isSome
+  rw [hf.2]
+  exact scanLoop_sim S _ _ _ hf.1
 
-theorem RB_del {d : KV} {mb : MBatch} {sb : SBatch} (h : RB d mb sb) (k : Key) :
-    RB d (mb.del k) (specImpl.bdel sb k) := by
-  obtain ⟨h1, h2, h3⟩ := h
-  refine ⟨wmOK_del h1 k, ?_, ?_⟩
-  · show (mb.del k).flush d = applyLog d (sb.log ++ [.del k])
-    rw [flush_del, applyLog_append, h2]; rfl
-  · intro hn
-    have hn' : noRange sb = true := by
-      have := noRange_append sb.log (sb.size + k.length) sb.size (.del k)
-      simp only [specImpl] at hn
-      rw [this] at hn
-      simpa [LogOp.isRange] using hn
-    obtain ⟨h4, h5⟩ := h3 hn'
-    refine ⟨fun d' => ?_, ?_⟩
-    · show (mb.del k).flush d' = applyLog d' (sb.log ++ [.del k])
-      rw [flush_del, applyLog_append, h4]; rfl
-    · show mb.size + k.length = sb.size + k.length
-      rw [h5]
+theorem rscanLoop_sim : ∀ (fuel : Nat) (mi : I) (si : SIter), S.ri mi si →
+    rscanLoop M fuel mi si.cur.isSome = rscanLoop specImpl fuel si si.cur.isSome := by
+  intro fuel
+  induction fuel with
+  | zero => intro mi si _; rfl
+  | succ f ih =>
+    intro mi si h
+    cases hc : si.cur with
+    | none => simp [rscanLoop]
+    | some kv =>
+      have hm : M.icur mi = some kv := by rw [S.cur h, hc]
+      have hs : specImpl.icur si = some kv := hc
+      have hn := S.prev h
+      simp only [rscanLoop, Option.isSome_some, if_true, hm, hs]
+      have e2 : specImpl.iprev si = (si.prev, si.prev.cur.isSome) := rfl
+      rw [e2, hn.2]
+      congr 1
+      exact ih _ _ hn.1
 
-theorem RB_delRange (cfg : Cfg) {d : KV} (hd : Sorted d) {mb : MBatch} {sb : SBatch} (h : RB d mb sb)
-    (s e : Key) : RB d (mb.delRange cfg d s e) (specImpl.bdelRange d sb s e) := by
-  obtain ⟨h1, h2, _⟩ := h
-  refine ⟨wmOK_mDelRange cfg d h1 s e hd, ?_, ?_⟩
-  · show (mb.delRange cfg d s e).flush d = applyLog d (sb.log ++ [.delRange s e])
-    rw [flush_mDelRange cfg d mb s e hd, applyLog_append, h2]; rfl
-  · intro hn
-    have := noRange_append sb.log sb.size sb.size (.delRange s e)
-    simp only [specImpl] at hn
-    rw [this] at hn
-    simp [LogOp.isRange] at hn
+include S in
+theorem rscan_sim (c : KV) (p : Key) (u : Bool) (t : Key) : rscan M c p u t = rscan specImpl c p u t := by
+  unfold rscan
+  have hs := S.seek t (S.mkIter c p u)
+  have hp := S.prev hs.1
+  have e1 : specImpl.iseek (specImpl.imk c p u) t =
+      ((specImpl.imk c p u).seek t, ((specImpl.imk c p u).seek t).cur.isSome) := rfl
+  have e2 : specImpl.iprev ((specImpl.imk c p u).seek t) =
+      (((specImpl.imk c p u).seek t).prev, ((specImpl.imk c p u).seek t).prev.cur.isSome) := rfl
+  rw [e1]
+  show rscanLoop M (c.length + 1) (M.iprev (M.iseek (M.imk c p u) t).1).1 (M.iprev (M.iseek (M.imk c p u) t).1).2 =
+    rscanLoop specImpl (c.length + 1) (specImpl.iprev ((specImpl.imk c p u).seek t)).1
+      (specImpl.iprev ((specImpl.imk c p u).seek t)).2
+  rw [e2, hp.2]
+  exact rscanLoop_sim S _ _ _ hp.1
 
-theorem RB_get {d : KV} {mb : MBatch} {sb : SBatch} (h : RB d mb sb) (k : Key) :
-    mb.get d k = specImpl.bget d sb k := by
-  show mb.get d k = (applyLog d sb.log).get k
-  rw [mbget_eq_flush h.1, h.2.1]
+/-! ### worlds -/
 
-theorem RB_change {d : KV} {mb : MBatch} {sb : SBatch} (h : RB d mb sb) (hn : noRange sb = true)
-    (d' : KV) : RB d' mb sb :=
-  ⟨h.1, (h.2.2 hn).1 d', h.2.2⟩
-
-def RBo (d : KV) : Option (MBatch × Bool) → Option (SBatch × Bool) → Prop
+def RBo (od : Option KV) : Option (B × Bool) → Option (SBatch × Bool) → Prop
   | none, none => True
-  | some (mb, i), some (sb, j) => i = j ∧ RB d mb sb
+  | some (mb, i), some (sb, j) => i = j ∧ S.rb j od mb sb
   | _, _ => False
 
-def RIo : Option (Option MIter) → Option (Option SIter) → Prop
+def RIo : Option (Option I) → Option (Option SIter) → Prop
   | none, none => True
   | some none, some none => True
-  | some (some mi), some (some si) => RI mi si
+  | some (some mi), some (some si) => S.ri mi si
   | _, _ => False
 
-structure R (wm : World MBatch MIter) (ws : World SBatch SIter) : Prop where
+structure R (wm : World B I) (ws : World SBatch SIter) : Prop where
   db : wm.db = ws.db
   sorted : ∀ d, ws.db = some d → Sorted d
   nb : wm.nb = ws.nb
   ns : wm.ns = ws.ns
   ni : wm.ni = ws.ni
   snaps : wm.snaps = ws.snaps
-  batches : ∀ n, RBo (ws.db.getD []) (wm.batches n) (ws.batches n)
+  batches : ∀ n, RBo S ws.db (wm.batches n) (ws.batches n)
   fresh : ∀ n, ws.nb ≤ n → ws.batches n = none
-  iters : ∀ n, RIo (wm.iters n) (ws.iters n)
+  iters : ∀ n, RIo S (wm.iters n) (ws.iters n)
 
-theorem R_init : R (World.init : World MBatch MIter) (World.init : World SBatch SIter) where
+theorem R_init : R S (World.init : World B I) (World.init : World SBatch SIter) where
   db := rfl
   sorted := by intro d h; cases h; exact Sorted.nil
   nb := rfl
@@ -108,6 +139,8 @@ theorem R_init : R (World.init : World MBatch MIter) (World.init : World SBatch 
   batches := fun _ => trivial
   fresh := fun _ _ => rfl
   iters := fun _ => trivial
+
+end
 
 @[simp] theorem upd_same {α : Type} (f : Nat → α) (i : Nat) (x : α) : upd f i x i = x := by simp [upd]
 theorem upd_other {α : Type} (f : Nat → α) (i : Nat) (x : α) {j : Nat} (h : j ≠ i) : upd f i x j = f j := by
@@ -119,27 +152,50 @@ theorem sorted_base {ws : World SBatch SIter} (h : ∀ d, ws.db = some d → Sor
   | none => exact Sorted.nil
   | some d => exact h d hd
 
-/-- what `othersNoRange` gives for one live batch -/
-theorem othersNoRange_get {ws : World SBatch SIter} {exc : Option Nat}
-    (hfresh : ∀ n, ws.nb ≤ n → ws.batches n = none)
-    (h : othersNoRange ws exc = true) {n : Nat} {sb : SBatch} {i : Bool}
-    (hn : ws.batches n = some (sb, i)) (hne : some n ≠ exc) : noRange sb = true := by
+/-- what `f5Free` gives for one live batch -/
+theorem f5Free_get {ws : World SBatch SIter} (hfresh : ∀ n, ws.nb ≤ n → ws.batches n = none)
+    (h : f5Free ws = true) {d : KV} (hd : ws.db = some d) {n : Nat} {sb : SBatch} {i : Bool}
+    (hn : ws.batches n = some (sb, i)) : batchAgrees d sb = true := by
   have hlt : n < ws.nb := by
     by_cases hl : n < ws.nb
     · exact hl
     · have := hfresh n (by omega); rw [this] at hn; cases hn
-  unfold othersNoRange at h
+  unfold f5Free at h
+  rw [hd] at h
   have := List.all_eq_true.mp h n (List.mem_range.mpr hlt)
-  simp only [hne, if_false, hn] at this
+  simp only [hn] at this
   exact this
 
-/-- the store content changes (direct write, helper, or `Write` of batch `exc`, which is closed) -/
-theorem R_commit {wm : World MBatch MIter} {ws : World SBatch SIter} (h : R wm ws)
-    (d' : KV) (hs : Sorted d') (exc : Option Nat) (hno : othersNoRange ws exc = true) :
-    R { wm with db := some d', batches := fun n => if some n = exc then none else wm.batches n }
-      { ws with db := some d', batches := fun n => if some n = exc then none else ws.batches n } where
+section
+variable {B I : Type} {M : Impl B I} (S : Sim M)
+
+theorem batches_none_iff {wm : World B I} {ws : World SBatch SIter} (h : R S wm ws) (n : Nat) :
+    wm.batches n = none ↔ ws.batches n = none := by
+  have hb := h.batches n
+  cases hm : wm.batches n <;> cases hsb : ws.batches n <;> rw [hm, hsb] at hb <;> simp [RBo] at hb ⊢
+
+theorem batches_some {wm : World B I} {ws : World SBatch SIter} (h : R S wm ws) {n : Nat}
+    {sb : SBatch} {j : Bool} (hs : ws.batches n = some (sb, j)) :
+    ∃ mb, wm.batches n = some (mb, j) ∧ S.rb j ws.db mb sb := by
+  have hb := h.batches n
+  rw [hs] at hb
+  cases hm : wm.batches n with
+  | none => rw [hm] at hb; exact hb.elim
+  | some x =>
+    obtain ⟨mb, i⟩ := x
+    rw [hm] at hb
+    exact ⟨mb, by rw [hb.1], hb.2⟩
+
+/-- the store content changes to `od'` (and batch `exc`, if any, is closed); every remaining live
+batch is re-based -/
+theorem R_commit {wm : World B I} {ws : World SBatch SIter} (h : R S wm ws)
+    (od' : Option KV) (hs : ∀ d, od' = some d → Sorted d) (exc : Option Nat)
+    (hag : S.needF5 = true → ∀ n sb i d', some n ≠ exc → ws.batches n = some (sb, i) → od' = some d' →
+      batchAgrees d' sb = true) :
+    R S { wm with db := od', batches := fun n => if some n = exc then none else wm.batches n }
+        { ws with db := od', batches := fun n => if some n = exc then none else ws.batches n } where
   db := rfl
-  sorted := by intro d hd; cases hd; exact hs
+  sorted := hs
   nb := h.nb
   ns := h.ns
   ni := h.ni
@@ -162,7 +218,7 @@ theorem R_commit {wm : World MBatch MIter} {ws : World SBatch SIter} (h : R wm w
           obtain ⟨mb, i⟩ := x
           obtain ⟨sb, j⟩ := y
           rw [hm, hsb] at hb
-          exact ⟨hb.1, RB_change hb.2 (othersNoRange_get h.fresh hno hsb hn) _⟩
+          exact ⟨hb.1, S.rebase od' hb.2 (fun hf d' hd' => hag hf n sb j d' hn hsb hd')⟩
   fresh := by
     intro n hn
     by_cases he : some n = exc
@@ -170,30 +226,11 @@ theorem R_commit {wm : World MBatch MIter} {ws : World SBatch SIter} (h : R wm w
     · simp only [he, if_false]; exact h.fresh n hn
   iters := h.iters
 
-theorem batches_none_iff {wm : World MBatch MIter} {ws : World SBatch SIter} (h : R wm ws) (n : Nat) :
-    wm.batches n = none ↔ ws.batches n = none := by
-  have hb := h.batches n
-  cases hm : wm.batches n <;> cases hsb : ws.batches n <;> rw [hm, hsb] at hb <;> simp [RBo] at hb ⊢
-
-/-- both tables hold related live batches at `n` -/
-theorem batches_some {wm : World MBatch MIter} {ws : World SBatch SIter} (h : R wm ws) {n : Nat}
-    {sb : SBatch} {j : Bool} (hs : ws.batches n = some (sb, j)) :
-    ∃ mb, wm.batches n = some (mb, j) ∧ RB (ws.db.getD []) mb sb := by
-  have hb := h.batches n
-  rw [hs] at hb
-  cases hm : wm.batches n with
-  | none => rw [hm] at hb; exact hb.elim
-  | some x =>
-    obtain ⟨mb, i⟩ := x
-    rw [hm] at hb
-    exact ⟨mb, by rw [hb.1], hb.2⟩
-
-/-- one live batch is replaced by related successors -/
-theorem R_setbatch {wm : World MBatch MIter} {ws : World SBatch SIter} (h : R wm ws) (b : Nat)
-    (hlive : ws.batches b ≠ none) (mb : MBatch) (sb : SBatch) (i : Bool)
-    (hrb : RB (ws.db.getD []) mb sb) :
-    R { wm with batches := upd wm.batches b (some (mb, i)) }
-      { ws with batches := upd ws.batches b (some (sb, i)) } where
+theorem R_setbatch {wm : World B I} {ws : World SBatch SIter} (h : R S wm ws) (b : Nat)
+    (hlive : ws.batches b ≠ none) (mb : B) (sb : SBatch) (i : Bool)
+    (hrb : S.rb i ws.db mb sb) :
+    R S { wm with batches := upd wm.batches b (some (mb, i)) }
+        { ws with batches := upd ws.batches b (some (sb, i)) } where
   db := h.db
   sorted := h.sorted
   nb := h.nb
@@ -212,8 +249,8 @@ theorem R_setbatch {wm : World MBatch MIter} {ws : World SBatch SIter} (h : R wm
     simp only [upd_other _ _ _ this]; exact h.fresh n hn
   iters := h.iters
 
-theorem R_closebatch {wm : World MBatch MIter} {ws : World SBatch SIter} (h : R wm ws) (b : Nat) :
-    R { wm with batches := upd wm.batches b none } { ws with batches := upd ws.batches b none } where
+theorem R_closebatch {wm : World B I} {ws : World SBatch SIter} (h : R S wm ws) (b : Nat) :
+    R S { wm with batches := upd wm.batches b none } { ws with batches := upd ws.batches b none } where
   db := h.db
   sorted := h.sorted
   nb := h.nb
@@ -232,10 +269,10 @@ theorem R_closebatch {wm : World MBatch MIter} {ws : World SBatch SIter} (h : R 
     · simp only [upd_other _ _ _ he]; exact h.fresh n hn
   iters := h.iters
 
-theorem R_setiter {wm : World MBatch MIter} {ws : World SBatch SIter} (h : R wm ws) (i : Nat)
-    (mi : Option MIter) (si : Option SIter) (hri : RIo (some mi) (some si)) (org : Nat → Src) :
-    R { wm with iters := upd wm.iters i (some mi) }
-      { ws with iters := upd ws.iters i (some si), iorigin := org } where
+theorem R_setiter {wm : World B I} {ws : World SBatch SIter} (h : R S wm ws) (i : Nat)
+    (mi : Option I) (si : Option SIter) (hri : RIo S (some mi) (some si)) (org : Nat → Src) :
+    R S { wm with iters := upd wm.iters i (some mi) }
+        { ws with iters := upd ws.iters i (some si), iorigin := org } where
   db := h.db
   sorted := h.sorted
   nb := h.nb
@@ -249,5 +286,18 @@ theorem R_setiter {wm : World MBatch MIter} {ws : World SBatch SIter} (h : R wm 
     by_cases hn : n = i
     · subst hn; simp only [upd_same]; exact hri
     · simp only [upd_other _ _ _ hn]; exact h.iters n
+
+theorem commit_none_eq {α : Type} (f : Nat → Option α) :
+    (fun n => if some n = (none : Option Nat) then none else f n) = f := by
+  funext n; simp
+
+theorem commit_some_eq {α : Type} (f : Nat → Option α) (b : Nat) :
+    (fun n => if some n = some b then none else f n) = upd f b none := by
+  funext n
+  by_cases h : n = b
+  · subst h; simp
+  · simp [upd, h]
+
+end
 
 end Juno.C15
